@@ -69,3 +69,22 @@ Theorem C01_qualifier_value_roundtrip_partial : forall prefix v,
   strip_prefixes (S (length (add_prefix v prefix))) (10 :: prefix) (add_prefix v prefix) = v.
 Proof. exact qualifier_value_roundtrip. Qed.
 Print Assumptions C01_qualifier_value_roundtrip_partial.
+
+(* the LOCUS line: whatever record GenBank.String writes, its first line is
+   read back by genbankLocusParser as exactly the fields it was written from
+   (name, length, molecule, topology, division, date) with field depth 12 —
+   for a locus name and molecule without blanks, a length within int64, a
+   three-letter division and a valid date.  Every fixed-width pad of the line
+   ("%-12s%-17s %10d bp %6s     %-9s%s %s") is a case of the proof: names of
+   17 or more characters leave only the single separating blank. *)
+From GTS Require Import ParsSpec LocusRT.
+Theorem C01_locus_line_roundtrip_partial : forall reg g out, gb_show reg g = Ok out ->
+  let f := gb_fields g in
+  word (f_locus f) -> 0 <= locus_length g <= int64_max -> word (f_molecule f) ->
+  (f_topology f = 0 \/ f_topology f = 1) -> upper3 (f_division f) ->
+  (let '(y, m, d) := f_date f in valid_date y m d) ->
+  exists line rest, out = (line ++ [10]) ++ rest /\
+    okp locus_parser (line ++ [10]) rest
+      (12, f_locus f, locus_length g, f_molecule f, topology_show (f_topology f), f_division f, f_date f).
+Proof. exact locus_roundtrip. Qed.
+Print Assumptions C01_locus_line_roundtrip_partial.
